@@ -6,7 +6,7 @@ base = json.load(open("/root/.vp/BASELINE.json"))
 fd, path = tempfile.mkstemp(suffix=".xml"); os.close(fd)
 env = dict(os.environ); env.pop("EUPS_VERIF", None)
 subprocess.run(["/venv/bin/python", "-m", "pytest", "-ra", "-q", "-p", "no:cacheprovider", "--timeout=900",
-                "--continue-on-collection-errors", "--junitxml=" + path], cwd="/repo", env=env,
+                "--continue-on-collection-errors", "--junitxml=" + path], cwd=os.environ.get("EUPS_VERIF_REPO", "/repo"), env=env,
                stdout=subprocess.DEVNULL, stderr=subprocess.DEVNULL)
 passed = set()
 for tc in ET.parse(path).getroot().iter("testcase"):
